@@ -1,5 +1,67 @@
-import XlVerif.Base
-/-! Driver for C13 (stub: replaced when the property's model is built). -/
+import XlVerif.Drv.EvalWire
+import XlVerif.Model.C13
+import XlVerif.Spec.C13
+/-! Driver for C13.
+  `C13 extract <fuel> <cells> <ranges> <names> <rnames> <focus> <sets>`
+     cells / ranges / names: the workbook wire of `EvalWire` (formulas are SOURCE trees: a reference may be a
+       defined name); rnames: `<name>~<key>~<row>;<row>` joined by `|`; focus: addresses joined by `|`;
+       sets: `<addr>~<value>` joined by `|`
+  → `err=<addr>` when the model of `extract` raises KeyError, otherwise
+    `cells= ranges= names= formulae=`   keys of the extracted model (in insertion order, joined by `|`)
+    `impl0= impl=`   evaluation of every focused address on the extracted model before / after the sets
+  and always
+    `spec0= spec=`   evaluation of every focused address on the original model before / after the sets
+    `closure=`       `Spec.C13.closureN` of the focus in the dependency graph, `sat=1` when it is saturated
+    `wf= focusok= guard=`   hygiene of the model, "no focused address is a range key", guard of D1301
+  results are joined by blanks.
+-/
 namespace XlVerif.Drv.C13
-def handle (_fields : List String) : String := "error=not-implemented"
+open XlVerif XlVerif.Model.Evaluator XlVerif.Model.C13 XlVerif.Drv.EvalWire
+
+def rnamesOfWire? (w : String) : Option (List (Addr × RName)) :=
+  (splitNE w "|").mapM fun e =>
+    match e.splitOn "~" with
+    | [n, k, m] => do
+        let name ← parseText? n
+        let key ← parseText? k
+        let rows ← (splitNE m ";").mapM fun r => (splitNE r ",").mapM parseText?
+        pure (name, ({ key := key, cells := rows } : RName))
+    | _ => none
+
+def setsOfWire? (w : String) : Option (List (Addr × V)) :=
+  (splitNE w "|").mapM fun e =>
+    match e.splitOn "~" with
+    | [a, v] => do pure ((← parseText? a), (← V.ofWire? v))
+    | _ => none
+
+def keysW (l : List Addr) : String := "|".intercalate (l.map textWire)
+def bW (b : Bool) : String := if b then "1" else "0"
+
+def evalAll (fuel : Nat) (m : MState) (focus : List Addr) : String :=
+  " ".intercalate (focus.map fun f => resW (fresh stdSem fuel m f))
+
+def handle (fields : List String) : String :=
+  match fields with
+  | ["extract", fuel, cells, ranges, names, rnames, focus, sets] =>
+    (match fuel.toNat?, modelOfWire? cells ranges names, rnamesOfWire? rnames,
+           (splitNE focus "|").mapM parseText?, setsOfWire? sets with
+     | some n, some st, some rn, some fs, some ss =>
+       let m : XModel := { st := st, rnames := rn }
+       let bm := buildCode m
+       let bound := st.cells.length + st.ranges.length + st.names.length + rn.length + fs.length + 1
+       let cl := Spec.C13.closureN (deps m) bound fs
+       let common := [("spec0", evalAll n bm fs), ("spec", evalAll n (applySets ss bm) fs),
+                      ("closure", keysW cl), ("sat", bW (Spec.C13.saturated (deps m) cl)),
+                      ("wf", bW (wfb m)), ("focusok", bW (fs.all fun a => !(hasKey a st.ranges))),
+                      ("guard", bW (nameFreeOn m cl))]
+       (match extract m fs with
+        | .error a => kv (("err", textWire a) :: common)
+        | .ok x =>
+          let bx := buildCode x
+          kv ([("cells", keysW (x.st.cells.map (·.1))), ("ranges", keysW (x.st.ranges.map (·.1))),
+               ("names", keysW (x.st.names.map (·.1) ++ x.rnames.map (·.1))),
+               ("formulae", keysW x.formulae),
+               ("impl0", evalAll n bx fs), ("impl", evalAll n (applySets ss bx) fs)] ++ common))
+     | _, _, _, _, _ => "error=bad-args")
+  | _ => "error=bad-request"
 end XlVerif.Drv.C13
